@@ -1,6 +1,7 @@
 # C10 Netcode connection table: unique ids, unique addresses, bounded by max_clients
 import re
 from sa.rules import *
+import rules.wave3 as W3
 import rules.shared as shared
 from rules.netcode_common import *
 import rules.C05 as C05
@@ -85,4 +86,5 @@ def rules(t):
         if (s.fn.path, s.bb, s.idx) not in known: r.bad(f"{s.fn.path}|other", s, f"unexpected slot write {fmt(t.stored(s))[:40]}")
     out.append(r)
     out.append(shared.slots_match_limit(t, "C10.f"))
+    out.append(W3.index_space(t, "C10.g"))
     return out
